@@ -86,6 +86,11 @@ let answer line =
   | ["vis"; id; stale; cached; ts] ->
     id ^ "\t" ^ (match check_visibility (stale = "1") (n_of_hex cached) (n_of_hex ts) with
                  | VisOk -> "ok" | VisAbortedByGC -> "gc" | VisPDTimeout -> "pdtimeout")
+  | ["visrun"; id; cached; ts; evs] ->
+    (* events: U<hex sp> | S | C separated by ',' *)
+    let ev e = if e = "S" then VSend else if e = "C" then VCheck else VUpdate (n_of_hex (String.sub e 1 (String.length e - 1))) in
+    let (r, n) = run_read (n_of_hex cached) (n_of_hex ts) (List.map ev (split_on ',' evs)) in
+    id ^ "\t" ^ (match r with VisOk -> "ok" | VisAbortedByGC -> "gc" | VisPDTimeout -> "pdtimeout") ^ "\t" ^ string_of_int (int_of_nat n)
   | ["addkeys"; id; mc0; answers] ->
     (* answers: L<mc>+<mc>... | M<commit> separated by ';' in delivery order *)
     let parse a = if a.[0] = 'M' then RMissing (n_of_hex (String.sub a 1 (String.length a - 1)))
